@@ -35,7 +35,7 @@ def r1_pending_registered(r, facts):
     f = facts.fn(life.POLL_INNER)
     eb = ExprBuilder(f)
     regs = fam.guard_regions(f, 'shared')
-    live = regs[0]['live'] if len(regs) == 1 else set()
+    live = regs[0]['held'] if len(regs) == 1 else set()
     pend = []
     for loc, s in f.assigns():
         if s['lhs']['l'] == 0 and not s['lhs']['p'] and s['rv']['k'] == 'agg' and s['rv'].get('variant') == 'Pending' \
